@@ -31,20 +31,22 @@ type mdTok struct {
 }
 
 type mdGen struct {
-	r      *rng.R
-	n      int
-	gfm    bool
-	toks   []mdTok
-	feats  map[string]bool
-	tables []mdTable
-	code   [][]string // expected lines of every code block
-	heads  map[string]int
-	seq    int
-	decor  []string // literal text around a word that must appear verbatim in the document
-	labels []string // words written in square brackets (literal text: the document defines no link for them)
-	math   bool     // formulas are enabled
-	vis    strings.Builder
-	seqs   []mdSeq // every inline sequence with the text a reader sees
+	r               *rng.R
+	n               int
+	gfm             bool
+	toks            []mdTok
+	plainHeading    bool // ... and consists of plain words only
+	breaksInHeading bool // the heading being written is a setext heading: its words may be separated by line breaks
+	feats           map[string]bool
+	tables          []mdTable
+	code            [][]string // expected lines of every code block
+	heads           map[string]int
+	seq             int
+	decor           []string // literal text around a word that must appear verbatim in the document
+	labels          []string // words written in square brackets (literal text: the document defines no link for them)
+	math            bool     // formulas are enabled
+	vis             strings.Builder
+	seqs            []mdSeq // every inline sequence with the text a reader sees
 }
 
 // mdSeq is one inline sequence (the content of a heading, paragraph, list item, quote line): its visible text as Markdown
@@ -70,6 +72,9 @@ func (g *mdGen) inline(block string, maxParts int) string {
 	r := g.r
 	var sb strings.Builder
 	parts := r.Range(1, maxParts)
+	if g.breaksInHeading && parts < 2 {
+		parts = 2
+	}
 	hadMath := false
 	g.seq++
 	first := len(g.toks)
@@ -84,7 +89,7 @@ func (g *mdGen) inline(block string, maxParts int) string {
 	}()
 	for i := 0; i < parts; i++ {
 		if i > 0 {
-			if block == "para" && r.Chance(1, 6) {
+			if (block == "para" && r.Chance(1, 6)) || (g.breaksInHeading && r.Bool()) {
 				sb.WriteString("\n") // soft break
 				g.use("soft-break")
 			} else {
@@ -94,7 +99,11 @@ func (g *mdGen) inline(block string, maxParts int) string {
 		}
 		w := g.word()
 		t := mdTok{tok: w, block: block}
-		switch k := r.Intn(14); {
+		k := r.Intn(14)
+		if g.plainHeading {
+			k = 0 // plain words only
+		}
+		switch {
 		case k < 3:
 			if r.Chance(1, 5) {
 				// benign punctuation that is plain text in Markdown and has to come through verbatim: ampersands that are not
@@ -311,7 +320,12 @@ func (g *mdGen) document() string {
 			lvl := r.Range(1, 6)
 			start := len(g.toks)
 			nseq := len(g.seqs)
+			// headings of level 1 and 2 may be written setext style (underlined), and then their text may run over several lines
+			setext := lvl <= 2 && r.Chance(1, 3)
+			g.breaksInHeading = setext
+			g.plainHeading = setext && r.Bool()
 			htext := g.inline(fmt.Sprintf("heading%d", lvl), 3)
+			g.breaksInHeading, g.plainHeading = false, false
 			if len(g.seqs) == nseq+1 && r.Chance(1, 4) {
 				// heading text that ends in a brace group: plain text in the Markdown this library reads (there is no attribute syntax)
 				tail := []string{"struct{}", "{}", "{#intro}", "{.note}", "{k=v}", "obj {#a .b}", "{ }", "set {1, 2}"}[r.Intn(8)]
@@ -320,7 +334,15 @@ func (g *mdGen) document() string {
 				g.decor = append(g.decor, tail)
 				g.use("heading-ending-in-braces")
 			}
-			sb.WriteString(strings.Repeat("#", lvl) + " " + htext + "\n\n")
+			if setext {
+				sb.WriteString(htext + "\n" + strings.Repeat([]string{"=", "-"}[lvl-1], r.Range(3, 9)) + "\n\n")
+				g.use("setext-heading")
+				if strings.Contains(htext, "\n") {
+					g.use("setext-heading-over-several-lines")
+				}
+			} else {
+				sb.WriteString(strings.Repeat("#", lvl) + " " + htext + "\n\n")
+			}
 			for _, t := range g.toks[start:] {
 				g.heads[t.tok] = lvl
 			}
